@@ -106,6 +106,61 @@ func checkC10(c *Ctx) {
 	}
 	r.FloorN("PtFlag stores and GetMeta calls", nFlag, 10)
 
+	// ---- (2b) a tag's index entry always has type String (Point.Get returns a tag with the recorded type and
+	// reads Nil/Void entries as nil before it looks at the flag)
+	strC, _ := constInt(t.SSA[pAst].Const("String").Value)
+	nTy := 0
+	for _, pp := range sortedKeys(t.SSA) {
+		for _, f := range t.PkgFuncs(pp) {
+			allInstrs(f, func(in ssa.Instruction) {
+				switch x := in.(type) {
+				case *ssa.Store:
+					fa, ok := x.Addr.(*ssa.FieldAddr)
+					if !ok || namedOf(fa.X.Type()) != "input.TFMeta" || fieldName(fa) != "DType" || f.Name() == "GetMeta" || f.Name() == "PutMeta" {
+						return
+					}
+					nTy++
+					v, isC := constInt(x.Val)
+					isStr := isC && v == strC
+					underField := false
+					for _, ec := range controlling(x.Block()) {
+						bo, ok := ec.Cond.(*ssa.BinOp)
+						if !ok || !strings.HasSuffix(path(bo.X), ".PtFlag") {
+							continue
+						}
+						// same index entry
+						if ld, ok := bo.X.(*ssa.UnOp); ok {
+							if fb, ok := ld.X.(*ssa.FieldAddr); ok && fb.X != fa.X {
+								continue
+							}
+						}
+						k, isK := constInt(bo.Y)
+						if isK && ((k == fieldC && bo.Op == token.EQL && ec.Pol) || (k == tagC && bo.Op == token.NEQ && ec.Pol) || (k == tagC && bo.Op == token.EQL && !ec.Pol) || (k == fieldC && bo.Op == token.NEQ && !ec.Pol)) {
+							underField = true
+						}
+					}
+					fresh := false
+					if call, ok := fa.X.(*ssa.Call); ok && isCallTo(call, pInput, "GetMeta") {
+						if k, isK := constInt(call.Call.Args[1]); isK && k == fieldC {
+							fresh = true
+						}
+					}
+					r.Ob("FLAG-DOMAIN", fmt.Sprintf("%s stores TFMeta.DType #%d", relName(f), ordinalOf(f, in)), t.Pos(x.Pos()), isStr || underField || fresh,
+						fmt.Sprintf("a type other than String may be recorded only for an entry known to be a field (stores String: %v, under PtFlag == PtField of the same entry: %v): a tag indexed as Nil reads as nil although the output holds its value", isStr, underField))
+				case *ssa.Call:
+					if isCallTo(in, pInput, "GetMeta") {
+						if k, isK := constInt(x.Call.Args[1]); isK && k == tagC {
+							nTy++
+							v, isC := constInt(x.Call.Args[0])
+							r.Ob("FLAG-DOMAIN", fmt.Sprintf("%s GetMeta #%d creates a tag entry of type String", relName(f), ordinalCall(f, x)), t.Pos(x.Pos()), isC && v == strC, "GetMeta(ast.String, PtTag)")
+						}
+					}
+				}
+			})
+		}
+	}
+	r.FloorN("TFMeta.DType stores and tag GetMeta calls", nTy, 6)
+
 	// ---- (3) coherence typestate over each method of Point that writes the maps
 	for _, f := range t.PkgFuncs(pInput) {
 		if len(f.Params) == 0 || namedOf(f.Params[0].Type()) != "input.Point" {
